@@ -510,7 +510,9 @@ class Machine(Interp):
 
     def inplace(self, op, old, r):
         if isinstance(old, list) and isinstance(op, ast.Add):
-            raise Unsupported("list += (use extend)")
+            # list.__iadd__: extends in place and returns the same object
+            self.list_method(old, "extend", [r], {})
+            return old
         try:
             return ops.binop(op, old, r)
         except (TypeError, ValueError, ZeroDivisionError) as e:
@@ -730,7 +732,7 @@ class Machine(Interp):
                     base = mk_int(zint(base) + 1)
             return out
         if isinstance(it, ZipObj):
-            return self.zip_plan(it.lists)
+            return self.zip_plan([self._as_plain_list(l) for l in it.lists])
         if isinstance(it, Opaque):
             f = it.props.get("as_list")
             if f is None:
@@ -749,6 +751,18 @@ class Machine(Interp):
         except TypeError as e:
             raise IRaise(e) from None
 
+    def _as_plain_list(self, l):
+        """list view of reversed()/plain lists for zip"""
+        if isinstance(l, RevObj):
+            out = []
+            for x in reversed(l.lst):
+                if isinstance(x, Seg):
+                    out.append(Seg(x.tag, x.length, x.jvar, list(reversed(x.items)), not x.rev, x.cls_note))
+                else:
+                    out.append(x)
+            return out
+        return list(l)
+
     def zip_plan(self, lists):
         """all lists must have the same segment structure (lengths provably equal)"""
         c = ctx()
@@ -763,6 +777,23 @@ class Machine(Interp):
                 continue
             if all(isinstance(h, Seg) for h in heads):
                 n0 = zint(heads[0].length)
+                same = all(c.valid(zint(h.length) == n0)[0] for h in heads[1:])
+                if not same and len(heads) == 2 and all(len(h.items) == 1 for h in heads) and heads[0].rev == heads[1].rev \
+                        and all(len(l) == 1 for l in lists):
+                    # zip stops at the shorter one (both are the last items of their lists)
+                    a_, b_ = heads
+                    if c.valid(zint(b_.length) <= zint(a_.length))[0]:
+                        short, long_, swap = b_, a_, True
+                    elif c.valid(zint(a_.length) <= zint(b_.length))[0]:
+                        short, long_, swap = a_, b_, False
+                    else:
+                        raise Unsupported("zip over segments whose lengths cannot be ordered")
+                    js = short.jvar
+                    shift = (zint(long_.length) - zint(short.length)) if short.rev else 0
+                    lv = ops.subst_j(long_.items[0], long_.jvar, js + shift)
+                    pair = (lv, short.items[0]) if swap else (short.items[0], lv)
+                    out.append(("seg", Seg(("zip", a_.tag, b_.tag), short.length, js, [pair], short.rev), None))
+                    return out
                 for h in heads[1:]:
                     ok, _ = c.valid(zint(h.length) == n0)
                     if not ok:
@@ -780,13 +811,7 @@ class Machine(Interp):
             for l in lists:
                 if isinstance(l[0], Seg):
                     ops.split_head(l)
-        # zip stops at the shortest: remaining elements must be provably none
-        for l in lists:
-            for x in l:
-                if isinstance(x, Seg):
-                    ok, _ = c.valid(zint(x.length) == 0)
-                    if not ok:
-                        raise Unsupported("zip: unequal lengths")
+        # zip stops as soon as one list is exhausted; what is left in the others is ignored
         return out
 
     def loop_over(self, key, target, it, fr, round_body):
@@ -900,9 +925,10 @@ class Machine(Interp):
                 continue
             if _same_value(c, a, b):
                 continue
-            if b is _MISSING:
-                # variable first bound inside the loop: not carried if never read before
-                # being written; treat as untracked after the loop
+            if b is _MISSING or isinstance(b, Poison):
+                # variable (re)bound inside the round before any read (reading an unbound or
+                # untracked variable is an error/Unsupported): not loop-carried; untracked
+                # after the loop
                 after[name] = Poison(f"{name} bound in summarised loop")
                 continue
             if isinstance(a, (int, SInt)) and isinstance(b, (int, SInt)) and not isinstance(a, bool):
